@@ -49,6 +49,7 @@ pub const SESSIONS: &[(&str, &str)] = &[
     ("match_value_arms", "id := (x: int) -> int { return x }\nv := id(5)\nr := match v { 5 => \"five\", n: int => \"int\", }\nr\nw := id(6)\nr2 := match w { 5, 7 => \"a\", 6 => \"six\", => \"other\", }\nr2\ns := \"k\"\nr3 := match s { \"j\", \"k\" => 1, t: string => 2, }\nr3\nu := [v, s]\nr4 := match u { [5, \"k\"] => 1, a: [int|string] => 2, }\n(r, r2, r3, r4)"),
     ("wide_cells", "wide := mut int|float 5\nnarrow := mut 5\nanyc := mut any 1\nread_wide := (c: mut (int|float)) -> int|float { return *c }\nread_wide(wide)\nread_narrow := (c: mut int) -> int { return *c + 1 }\nread_narrow(narrow)\nread_any := (c: mut any) -> any { return *c }\nread_any(anyc)\nput := (c: mut (int|float), v: float) -> float { return c = v }\nput(wide, 2.5)\n(*wide, *narrow, *anyc)"),
     ("nan_self_compare", "z := mut 0.0\nx := *z / *z\nx == x\nx != x\ny := [x, 1.0]\ny == y\nt := (x, \"s\")\nt != t\nk := 5\n(k == k, k != k, x == x, [x] == [x])"),
+    ("known_index_effects", "c := mut 0\nbump := () -> int { c += 1; return *c }\ni := *c\nv := [bump(), bump()][i]\nn := *c\n(v, n)\nj := 1\nw := [bump(), bump(), bump()][j]\n(w, *c)\nt := (bump(), bump()).0\n(t, *c)\ns := struct{a := bump(), b := bump()}.a\n(s, *c)"),
     ("own_name_param", "f := (f: int, g: int) -> int { return f + g }\nf(1, 2)\ng := (x: int) -> int { g := x + 1; return g }\ng(1)\ng(2)"),
 ];
 
@@ -686,6 +687,11 @@ pub fn run_scenario(sc: &Scenario) -> RunReport {
                             vectors.push(other);
                         }
                     }
+                }
+                if ft.params.len() >= 2 {
+                    // all arguments packed into ONE tuple argument (arity 1 instead of n)
+                    let packed = Variable::Tuple(good.iter().map(|g| g.0.clone()).collect::<Vec<_>>().into());
+                    vectors.push(vec![(packed, format!("({})", good.iter().map(|g| g.1.clone()).collect::<Vec<_>>().join(", ")))]);
                 }
                 if ft.params.len() >= 2 {
                     // arguments in the wrong order
